@@ -241,6 +241,8 @@ class Funcs:
             return tuple(ch), self.meta(node.aux), tuple('e%d' % i for i in range(n))
         if self.style == 2:
             return self._gen(ch), self.meta(node.aux)
+        if self.style == 4:  # the aux object travels in the path ENTRIES, not in the metadata
+            return list(ch), (self.rid, None), tuple((i, node.aux) for i in range(n))
         lst = list(ch)
         if self.keep is not None:
             self.keep.append(lst)
